@@ -342,4 +342,22 @@ def mon_c18_queues(sim):
         for t, res in finished.items():
             if len(res) > 1 and t in started:
                 bad.append(('C18:finished-twice', '%s transfer %d got finished signals %s' % (ep.name, t, res)))
+        # a signal raised after the object was removed from the bus reaches nobody
+        for (_path, name, _sig, args) in getattr(ep.h, '_verif_lost', []):
+            bad.append(('C18:signal-after-unexport-%s' % name,
+                        '%s raised %s%s after its D-Bus object had been removed from the connection: the signal is never emitted'
+                        % (ep.name, name, tuple(str(a)[:20] for a in args))))
+        # a graceful end (SESS_TERM written by both sides, nobody closed by hand): every started transfer was reported once
+        try:
+            mine = [m for m in wire_frames(ep)[1] if m['k'] == 'sess_term']
+            other = [e2 for e2 in sim.eps() if e2 is not ep][0]
+            theirs = [m for m in wire_frames(other)[1] if m['k'] == 'sess_term']
+        except Exception:
+            mine, theirs, other = [], [], None
+        if mine and theirs and ep.closed() and other is not None and other.closed() \
+                and not getattr(ep, 'user_closed', False) and not getattr(other, 'user_closed', False):
+            for t in sorted(started):
+                if len(finished.get(t, [])) != 1:
+                    bad.append(('C18:started-not-finished-once-at-graceful-end',
+                                '%s transfer %d was started and the session ended gracefully with finished signals %s' % (ep.name, t, finished.get(t, []))))
     return bad
